@@ -11,6 +11,7 @@
   "C17": "contract",
   "C19": "safety"
  },
+ "c19_quick": false,
  "mode": "harness",
  "replace_calls": {
   "arrayaddptr": "rec_arrayaddptr",
